@@ -144,7 +144,7 @@ var c01ints = []string{"0", "1", "-1", "7", "10", "42", "-12", "100", "255", "10
 	"-123456789012345678901234567890", "90071992547409910", "900719925474099", "9007199254740981"}
 var c01nonints = []string{"0.5", "-0.5", "1.5", "0.0", "-0.0", "1.0", "-1.0", "1e5", "1E5", "1e+5", "1E+5", "1e-5", "1E-5", "1e-05", "0e5", "0E5",
 	"-0e1", "-0E1", "0e0", "1e0", "1e-0", "-1e-0", "12.25e2", "1.5e300", "1e999", "-1e999", "0.1e1", "100e-2", "9007199254740991.0", "9.007199254740991e15",
-	"1E2", "2e00", "-2.50", "0.000", "10.01", "1e9007199254740993"}
+	"1E2", "1E-05", "2E-0", "-3E-01", "2e00", "-2.50", "0.000", "10.01", "1e9007199254740993"}
 
 var c01chars = []rune{'a', 'b', 'z', 'A', 'Z', '0', '9', ' ', '_', '-', '.', 'e', 'E', 'u',
 	'"', '\\', '/', 0, 1, 7, 8, 9, 10, 11, 12, 13, 14, 15, 16, 0x1a, 0x1b, 0x1f, 0x20, 0x7e, 0x7f, 0x80, 0xa0, 0xe9, 0xff, 0x100, 0x7ff, 0x800,
